@@ -256,10 +256,24 @@ def main():
     args = ap.parse_args()
     seed = int(os.environ.get("VERIF_SEED", "1"))
     ctx = Ctx(args.prop, args.tier, seed)
+    if not os.path.exists(os.path.join(HERE, "props", f"{args.prop}.py")):
+        print(f"unknown property {args.prop}")
+        sys.exit(2)
     try:
         mod = importlib.import_module(f"props.{args.prop}")
-    except ModuleNotFoundError:
-        print(f"unknown property {args.prop}")
+    except Exception:  # noqa  (the harness imports /repo's package: a tree whose package does not import ends here)
+        tb = traceback.format_exc()
+        print(tb)
+        try:
+            drift = source_drift()
+        except Exception:  # noqa
+            drift = []
+        if drift:
+            path = write_replay(ctx, {"property": ctx.prop, "kind": "obligation",
+                                      "what": "the package of this tree, whose source differs from the pinned one, cannot be imported by the harness",
+                                      "source_files_differing_from_pinned": drift, "exception": tb[-3000:]})
+            print(f"VIOLATION property={ctx.prop} replay={path} no-failing-input-found")
+            sys.exit(1)
         sys.exit(2)
     P = mod.PROP
     try:
